@@ -68,7 +68,7 @@ def graph_case(rng, cid):
             if earlier and r < 0.55:
                 to = earlier[-1] if (mode == 'chain' or rng.random() < 0.5) else rng.choice(earlier)
                 t = ty_id(ref(nme, to))
-                if rng.random() < 0.2: t = ty_arr(t, rng.choice([1, 2, 3]))
+                if rng.random() < 0.25: t = ty_arr(t, rng.choice([0, 0, 1, 2, 3]))
                 at = [a_ident('base')] if (kinds[to] == 'type' and rng.random() < 0.2 and tag(t) == 'id') else []
                 flds.append(field(True, 'v%d' % k, t, at))
                 depth = max(depth, chain_depth[to] + 1)
@@ -90,7 +90,7 @@ def graph_case(rng, cid):
                 for d in m_:
                     if isinstance(d, list) and d[0] == a and not isinstance(d[0], Sym):
                         t = ty_id(ref(a, b))
-                        if rng.random() < 0.3: t = ty_arr(t, 2)
+                        if rng.random() < 0.4: t = ty_arr(t, rng.choice([0, 0, 2]))
                         d[1].append(field(True, 'cyc%d' % len(d[1]), t))
     if mode in ('undefined', 'mixed') and struct_names:
         for _ in range(rng.choice([1, 1, 2])):
@@ -115,7 +115,11 @@ def graph_case(rng, cid):
         ds = []
         for d in defs[tuple(m_)]:
             if isinstance(d, list) and not isinstance(d[0], Sym):
-                ds.append(type_def(True, d[0], [a_ident('packed')], d[1]))
+                stmts = list(d[1])
+                if rng.random() < 0.3:
+                    # a vftable block: its generated <T>Vftable item is registered on every attempt
+                    stmts = [vftable([], [fn(True, 'vf', [], [SELF], None)])] + stmts
+                ds.append(type_def(True, d[0], [a_ident('packed')], stmts))
             else:
                 ds.append(d)
         rng.shuffle(ds)
@@ -214,6 +218,8 @@ def judge(c, impl, model):
     cls = outcome_class(io2)
     count(info, 'impl-' + cls)
     if cls == 'bad':
+        # neither success nor an error: the build did not end with a verdict (hang / panic)
+        fs.append(Finding('O', 'C10/no-verdict', cid, dump(io2)[:200]))
         return fs, info
     items, edges, stuck, hard = analyse(c)
     if find(c, 'expect-any') is not None:
